@@ -33,6 +33,21 @@ def fixedGrid {α} (O : OFld α) (t0 tend dt : α) : Except Err (List α) :=
   let steps := gridLoop O tend dt Nt t0
   if steps.length + 1 > Nt then .error .index else .ok (t0 :: steps)
 
+/-- the same loop as the code computes it now: the grid point after k steps is `t0 + k·dt` (no accumulated rounding); in exact
+arithmetic this is `gridLoop` (`Proofs/FixedStep.lean: gridLoopK_eq`) -/
+def gridLoopK {α} (O : OFld α) (t0 tend dt : α) : Nat → Nat → α → List α
+  | 0, _, _ => []
+  | fuel + 1, k, tt =>
+    if O.lt (O.div (O.abs dt) (O.ofNat 10)) (O.sub tend tt) then
+      let tt' := O.add t0 (O.mul (O.ofNat (k + 1)) dt)
+      tt' :: gridLoopK O t0 tend dt fuel (k + 1) tt'
+    else []
+
+def fixedGridK {α} (O : OFld α) (t0 tend dt : α) : Except Err (List α) :=
+  let Nt := O.trunc (O.div (O.sub tend t0) dt) + 100
+  let steps := gridLoopK O t0 tend dt Nt 0 t0
+  if steps.length + 1 > Nt then .error .index else .ok (t0 :: steps)
+
 /-- `fdae_solver` (time grid): the last step ends at `tend` itself -/
 def fdaeLoop {α} (O : OFld α) (tend uround slack : α) : Nat → α → α → List α
   | 0, _, _ => []
